@@ -502,6 +502,24 @@ pub fn generate_c07(tier: &str, seed: u64, out: &mut Out) {
             out.req("deb.wrap", &["d".to_string(), es(t), cfg.to_string()]);
         }
     }
+    // open finding F-C07-10: an item that starts with '#' after a comma ends up, one per line, at the
+    // start of a continuation line and reads back as a comment (formatters u / c; s joins on one line)
+    for t in [
+        "Uploaders: A <a@b>, #B\n",
+        "Uploaders: A, #B, C\n",
+        "Source: x\nUploaders: A <a@b>, #B\n\nPackage: p\nDepends: a\n",
+        "A: x, #y\nB: c\n",
+        "A: x,   #y, z\n",
+    ] {
+        for cfg in ["4/0/n/n/n/u", "2/1/n/n/n/u", "1/0/79/n/n/u", "4/0/n/n/n/c", "2/1/20/n/n/c", "4/0/n/n/n/s", "4/0/n/n/n/i"] {
+            for level in ["d", "p", "e"] {
+                if cfg.ends_with("/c") && level == "e" {
+                    continue;
+                }
+                out.req("deb.wrap", &[level.to_string(), es(t), cfg.to_string()]);
+            }
+        }
+    }
     // the control-file wrappers (formatter `c`): Control at document level, Source / Binary on the
     // first paragraph; realistic control files with every formatted field, substitution variables,
     // unsorted / folded / oddly spaced relationship fields, comments, several source paragraphs
